@@ -68,6 +68,7 @@ type world struct {
 	unclean    map[string]string    // lock name -> why exclusion / order are not asserted any more
 	killEpoch  map[int]int          // locker -> number of connection kills so far
 	when       map[int64]time.Time  // seq -> virtual time
+	waiting    map[string]int       // "locker/name" -> WithContext calls in progress
 	nextHolder int
 	trace      []string
 	stats      map[string]int64
@@ -260,11 +261,16 @@ type params struct {
 	nocache  bool
 	names    int
 	kills    int
+	herd     bool // chain variant: 5 lockers x 2 goroutines, one name, many short holds: every release wakes all waiters and all but one fail
 	seed     int64
 }
 
 func (p params) cfg() string {
-	return fmt.Sprintf("kind=%s majority=%d noloop=%v setpx=%v nocache=%v", p.kind, p.majority, p.noloop, p.setpx, p.nocache)
+	k := p.kind
+	if p.herd {
+		k = "herd"
+	}
+	return fmt.Sprintf("kind=%s majority=%d noloop=%v setpx=%v nocache=%v", k, p.majority, p.noloop, p.setpx, p.nocache)
 }
 
 func oneHistory(run *mon.Run, t *testing.T, idx int, p params) {
@@ -291,7 +297,7 @@ func history(run *mon.Run, name string, p params) (string, bool) {
 	defer srv.Close()
 	node := srv.Node(addr)
 	w := &world{run: run, srv: srv, name: name, cfg: p.cfg(), connOf: map[int64]int{}, keys: map[string]keyState{}, holders: map[int]*holder{}, byVal: map[string]*holder{},
-		unclean: map[string]string{}, killEpoch: map[int]int{}, when: map[int64]time.Time{}, stats: map[string]int64{}, majority: int(p.majority), total: int(p.majority)*2 - 1}
+		unclean: map[string]string{}, killEpoch: map[int]int{}, when: map[int64]time.Time{}, waiting: map[string]int{}, stats: map[string]int64{}, majority: int(p.majority), total: int(p.majority)*2 - 1}
 	srv.OnEvent = w.onEvent
 
 	validity, interval := 4*time.Second, time.Second
@@ -419,7 +425,51 @@ func history(run *mon.Run, name string, p params) (string, bool) {
 		if len(lg) > 600 {
 			lg = lg[len(lg)-600:]
 		}
-		run.Violation("waiter-not-woken", p.cfg(), map[string]any{"case": name, "locker": l, "name": n, "waited_virtual": waited.String(), "err": fmt.Sprint(err), "live_holders_now": live, "trace": tr, "log": lg, "goroutines_30s_before": func() string { snapMu.Lock(); defer snapMu.Unlock(); return snapshot }()})
+		// the shape of the history, for the key: was an invalidation for this name pushed to the waiter's connection after
+		// the waiter's last command (then the wake-up was delivered to the client and lost inside it), and how many calls
+		// of the same locker were waiting for the same name
+		lastCmd, pushAfter := int64(0), "no"
+		evs := srv.Log()
+		for _, e := range evs {
+			if lk, ok := conn[e.Conn]; ok && lk == l && e.Kind == "exec" {
+				lastCmd = e.Seq
+			}
+		}
+		for _, e := range evs {
+			if lk, ok := conn[e.Conn]; ok && lk == l && e.Kind == "push" && e.Seq > lastCmd && len(e.Reply.A) == 2 && e.Reply.A[0].S == "invalidate" {
+				for _, k := range e.Reply.A[1].A {
+					if nm, ok := lockName(k.S); ok && nm == n {
+						pushAfter = "yes"
+					}
+				}
+			}
+		}
+		w.mu.Lock()
+		sib := w.waiting[fmt.Sprintf("%d/%s", l, n)] - 1
+		w.mu.Unlock()
+		sibs := "0"
+		if sib > 0 {
+			sibs = "1+"
+		}
+		tracking := "loop"
+		if p.nocache {
+			tracking = "nocache"
+		} else if p.noloop {
+			tracking = "noloop"
+		}
+		run.Violation("waiter-not-woken", fmt.Sprintf("tracking=%s sibling-waiters=%s invalidation-pushed-after-last-command=%s", tracking, sibs, pushAfter),
+			map[string]any{"case": name, "config": p.cfg(), "locker": l, "name": n, "waited_virtual": waited.String(), "err": fmt.Sprint(err), "live_holders_now": live, "trace": tr, "log": lg,
+				"goroutines_30s_before": func() string { snapMu.Lock(); defer snapMu.Unlock(); return snapshot }()})
+	}
+	waitStart := func(l int, n string) {
+		w.mu.Lock()
+		w.waiting[fmt.Sprintf("%d/%s", l, n)]++
+		w.mu.Unlock()
+	}
+	waitEnd := func(l int, n string) {
+		w.mu.Lock()
+		w.waiting[fmt.Sprintf("%d/%s", l, n)]--
+		w.mu.Unlock()
 	}
 
 	contended := false
@@ -429,6 +479,9 @@ func history(run *mon.Run, name string, p params) (string, bool) {
 		var cmu sync.Mutex
 		for l := 0; l < p.lockers; l++ {
 			gs := 1 + rng.Intn(2)
+			if p.herd {
+				gs = 2
+			}
 			for g := 0; g < gs; g++ {
 				wg.Add(1)
 				seed := rng.Int63()
@@ -436,7 +489,11 @@ func history(run *mon.Run, name string, p params) (string, bool) {
 					defer wg.Done()
 					r := rand.New(rand.NewSource(seed))
 					time.Sleep(time.Duration(r.Intn(30)) * time.Millisecond)
-					for round := 0; round < 2+r.Intn(2); round++ {
+					rounds := 2 + r.Intn(2)
+					if p.herd {
+						rounds = 8 + r.Intn(4)
+					}
+					for round := 0; round < rounds; round++ {
 						n := names[r.Intn(len(names))]
 						try := r.Intn(5) == 0
 						ctx, cancelSrc := context.WithTimeout(context.Background(), waitBound)
@@ -450,11 +507,16 @@ func history(run *mon.Run, name string, p params) (string, bool) {
 							how = "try"
 							lctx, cancel, err = lockers[l].TryWithContext(ctx, n)
 						} else {
+							waitStart(l, n)
 							lctx, cancel, err = lockers[l].WithContext(ctx, n)
+							if err == nil || !errors.Is(err, context.DeadlineExceeded) {
+								waitEnd(l, n)
+							}
 						}
 						if err != nil {
 							cancelSrc()
 							if !try && errors.Is(err, context.DeadlineExceeded) {
+								time.Sleep(time.Second) // siblings that are stuck as well have reported by then
 								lostWakeup(l, n, time.Since(start), err)
 								return
 							}
@@ -478,6 +540,9 @@ func history(run *mon.Run, name string, p params) (string, bool) {
 						h := w.acquired(l, n, how, lctx, ep)
 						// hold across 0-3 extension intervals
 						hold := time.Duration(r.Intn(3200)) * time.Millisecond
+						if p.herd {
+							hold = time.Duration(r.Intn(30)) * time.Millisecond
+						}
 						select {
 						case <-time.After(hold):
 						case <-lctx.Done():
@@ -529,6 +594,72 @@ func history(run *mon.Run, name string, p params) (string, bool) {
 		}
 		wg.Wait()
 		killer.Wait()
+	case "spin":
+		// many failed attempts in a row: the holder's key 0 is deleted and its other keys are overwritten, so that a waiter in
+		// the default tracking mode takes key 0, fails on key 1, releases key 0, is invalidated by its own DEL and retries;
+		// the driver ends that after a bounded number of attempts by deleting the foreign keys: the waiter must then acquire
+		n := names[0]
+		lctx, cancel, err := lockers[0].WithContext(context.Background(), n)
+		if err != nil {
+			run.Inconclusive("uncontended WithContext failed: " + err.Error())
+			break
+		}
+		h := w.acquired(0, n, "with", lctx, 0)
+		synctest.Wait()
+		type res struct {
+			cancel context.CancelFunc
+			err    error
+			waited time.Duration
+		}
+		waiter := make(chan res, 1)
+		go func() {
+			ctx, c := context.WithTimeout(context.Background(), waitBound)
+			defer c()
+			start := time.Now()
+			waitStart(1, n)
+			lc, cn, err := lockers[1].WithContext(ctx, n)
+			if err == nil {
+				w.acquired(1, n, "with", lc, 0)
+			}
+			waiter <- res{cn, err, time.Since(start)}
+		}()
+		time.Sleep(100 * time.Millisecond)
+		w.mu.Lock()
+		w.markUnclean(n, "a third party deletes / overwrites lock keys")
+		base := w.stats["releases_seen"]
+		w.mu.Unlock()
+		for i := 1; i < w.total; i++ {
+			node.Exec("SET", fmt.Sprintf("%s:%d:%s", prefix, i, n), "intruder")
+		}
+		node.Exec("DEL", prefix+":0:"+n)
+		attempts := int64(0)
+		target := int64(500 + rng.Intn(2500))
+		for i := 0; i < 3_000_000 && attempts < target; i++ {
+			runtime.Gosched()
+			if i%64 == 0 {
+				w.mu.Lock()
+				attempts = w.stats["releases_seen"] - base
+				w.mu.Unlock()
+			}
+		}
+		run.Observe("spin_failed_attempts", attempts)
+		for i := 1; i < w.total; i++ {
+			node.Exec("DEL", fmt.Sprintf("%s:%d:%s", prefix, i, n))
+		}
+		release(h, cancel)
+		r := <-waiter
+		if r.err != nil {
+			if errors.Is(r.err, context.DeadlineExceeded) {
+				lostWakeup(1, n, r.waited, r.err)
+			} else {
+				run.Observe("acquire_errors", 1)
+			}
+		} else {
+			contended = true
+			run.Observe("acquired_after_waiting", 1)
+			run.Observe("acquired_after_many_failed_attempts", 1)
+			r.cancel()
+		}
 	case "loss", "force", "expiry":
 		n := names[0]
 		lctx, cancel, err := lockers[0].WithContext(context.Background(), n)
@@ -551,6 +682,7 @@ func history(run *mon.Run, name string, p params) (string, bool) {
 			ctx, c := context.WithTimeout(context.Background(), waitBound)
 			defer c()
 			start := time.Now()
+			waitStart(wl, n)
 			lc, cn, err := lockers[wl].WithContext(ctx, n)
 			if err == nil {
 				w.acquired(wl, n, "with", lc, 0)
@@ -580,6 +712,16 @@ func history(run *mon.Run, name string, p params) (string, bool) {
 			rng.Shuffle(len(mine), func(i, j int) { mine[i], mine[j] = mine[j], mine[i] })
 			cnt := w.majority + rng.Intn(len(mine)-w.majority+1)
 			overwrite := rng.Intn(2) == 0
+			if overwrite {
+				// Steer around a livelock of waiters in the default tracking mode (reported separately): a waiter that can
+				// take key 0 but finds key 1 foreign deletes key 0 again, is invalidated by its own DEL and retries at once,
+				// for ever and without virtual time passing. Overwritten sets therefore always contain key 0.
+				for i, k := range mine {
+					if k == prefix+":0:"+n {
+						mine[0], mine[i] = mine[i], mine[0]
+					}
+				}
+			}
 			for _, k := range mine[:cnt] {
 				if overwrite {
 					node.Exec("SET", k, "intruder", "PX", "60000")
@@ -699,6 +841,9 @@ func TestC34(t *testing.T) {
 			if rng.Intn(3) == 0 {
 				p.kills = 1 + rng.Intn(2)
 			}
+			if rng.Intn(4) == 0 {
+				p.herd, p.lockers, p.names, p.kills, p.nocache = true, 5, 1, 0, false
+			}
 		case k < 8:
 			p.kind = "loss"
 		case k < 9:
@@ -708,6 +853,12 @@ func TestC34(t *testing.T) {
 			}
 		default:
 			p.kind = "expiry"
+		}
+		if rng.Intn(12) == 0 {
+			p.kind, p.noloop, p.nocache, p.kills = "spin", false, false, 0
+			if p.majority < 2 {
+				p.majority = 2
+			}
 		}
 		if only != "" && only != fmt.Sprintf("h%d", i) {
 			continue
